@@ -193,7 +193,13 @@ def c13(tier, seed):
                        assumptions=COMMON_ASSUME + ['glibc classification macros are the reference'])
 
 
+def c19(tier, seed):
+    from . import c19 as m
+    return m.run(tier, seed)
+
+
 CHECKS = {
+    'C19': c19,
     'C01': c01, 'C02': c02, 'C03': c03, 'C04': c04, 'C05': c05, 'C06': c06, 'C07': c07, 'C08': c08, 'C09': c09,
     'C10': c10, 'C12': c12, 'C13': c13,
 }
